@@ -174,4 +174,5 @@ func genC12(t *testing.T) {
 		nilElemsJoin("C12")
 		soakJoin(common.Pick(20000, 200000))
 	}
+	progsC12(t)
 }
